@@ -960,6 +960,37 @@ func c16Oracle(c *c16Case, astSels []*promParser.VectorSelector) {
 		}
 		n := c16MetricName(s)
 		if n == "ALERTS" || n == "ALERTS_FOR_STATE" {
+			// (b) for alert metrics: ALERTS{alertname="X"} is produced by an ALERTING rule named X and by nothing else.  No
+			// ALERTS sample in the window, no alerting rule X in the checked set (a recording rule X does not count), no
+			// exemption => a Bug must be reported for the selector.
+			an := ""
+			for _, lm := range s.LabelMatchers {
+				if lm.Name == "alertname" && lm.Type == labels.MatchEqual {
+					an = lm.Value
+				}
+			}
+			if an == "" || everInWindow(c16NameMatchers(s)) || contains(c.Alerting, an) {
+				continue
+			}
+			exempt := false
+			for _, d := range append(append([]string{}, c.DisabledNames...), c.SnoozedNames...) {
+				if d == n || d == k {
+					exempt = true
+				}
+			}
+			if exempt {
+				continue
+			}
+			found := false
+			for _, p := range c.Problems {
+				if p.Selector == k && p.Severity == "Bug" {
+					found = true
+				}
+			}
+			if !found {
+				c.Fail = fmt.Sprintf("(b) %s has no sample in the whole lookback window and no alerting rule named %q is in the checked set (rules: recording %v, alerting %v), but no Bug is reported for it", k, an, c.Recording, c.Alerting)
+				return
+			}
 			continue
 		}
 		nm := c16NameMatchers(s)
